@@ -307,6 +307,21 @@ func c08Run(t *testing.T, run *Run, sc c08Scenario) {
 		run.Inconclusive("setup failed: %s", c.Err)
 		return
 	}
+	// a neighbour whose only target turns unhealthy: requests for it get the proxy's plain 503 (no
+	// operator message) from the same built-in error pages, before and between the stops judged here
+	w.AddTarget("neighbour-t:80", func(n int, at time.Duration) ProbeAct {
+		if n == 0 {
+			return ProbeAct{Status: 200}
+		}
+		return ProbeAct{Status: 500}
+	})
+	if c := w.Deploy("neighbour", []string{"neighbour-t:80"}, server.ServiceOptions{TLSRedirect: true, Hosts: []string{"neighbour.example"}}, DefTO, 5*time.Second, time.Second); c.Err != "" {
+		run.Inconclusive("setup failed: %s", c.Err)
+		return
+	}
+	for k := 0; k < 4; k++ {
+		w.GoReq(1500*time.Millisecond+time.Duration(k)*2*time.Second+OffArrival, Req{ID: fmt.Sprintf("neighbour%d", k), Host: "neighbour.example", Path: "/"})
+	}
 	for _, c := range sc.Cmds {
 		c := c
 		w.At(c.At, func() {
